@@ -38,6 +38,7 @@ Catalogue == {
   F("segment", "ref-not-start-at-0", SegLabFns, VE), F("segment", "ends-differ", SegLabFns, VE),
   F("chord", "unequal-lengths", ChordRuleFns, VE), F("chord", "bad-ref-label", ChordRuleFns \cup {"chord.evaluate"}, IC),
   F("chord", "bad-est-label", ChordRuleFns \cup {"chord.evaluate"}, IC),
+  F("chord", "bad-pitch-class", {"chord.pitch_class_to_semitone"}, IC), F("chord", "bad-scale-degree", {"chord.scale_degree_to_semitone"}, IC),
   F("chord", "weights-length", {"chord.weighted_accuracy"}, VE), F("chord", "negative-weight", {"chord.weighted_accuracy"}, VE),
   F("chord", "ref-overlap", {"chord.directional_hamming_distance", "chord.overseg", "chord.seg"}, VE),
   F("chord", "est-nonpositive-duration", ChordSegFns, VE), F("chord", "ref-not-nx2", ChordSegFns, VE),
@@ -77,6 +78,10 @@ Catalogue == {
   F("hierarchy", "window-zero", {"hierarchy.tmeasure", "hierarchy.evaluate"}, VE),       \* 0 is a window smaller than any frame size, not "no window"
   F("hierarchy", "level-ends-differ", {"hierarchy.tmeasure", "hierarchy.lmeasure"}, VE),
   F("hierarchy", "level-not-start-at-0", {"hierarchy.tmeasure", "hierarchy.lmeasure"}, VE),
+  \* the interval helpers document their own rejections (docstrings: "Raises ValueError")
+  F("util", "sample-times-decreasing", {"util.interpolate_intervals"}, VE),
+  F("util", "boundaries-not-strictly-increasing", {"util.boundaries_to_intervals"}, VE),
+  F("util", "annotations-not-aligned", {"util.merge_labeled_intervals"}, VE),
   F("separation", "shape-mismatch", SepFns, VE), F("separation", "too-many-dimensions", SepFns, VE),
   F("separation", "silent-reference", SepFns, VE), F("separation", "silent-estimate", SepFns, VE),
   F("separation", "too-many-sources", SepFns, VE) }
@@ -86,7 +91,7 @@ ValidShapes0(task) ==
     [] task = "segment" -> {"random", "identical", "empty_est", "single", "duplicates", "disjoint", "est-starts-later", "est-ends-later",
                             "est-ends-earlier", "boundary-at-ref-end", "one-frame"}
     [] task = "chord" -> {"random", "identical", "single", "duplicates", "est-starts-earlier", "est-ends-later", "boundary-at-ref-start",
-                          "boundary-at-ref-end", "est-ends-earlier"}
+                          "boundary-at-ref-end", "est-ends-earlier", "empty-label-lists"}      \* the comparison rules on two empty lists: a warning, an empty result
     [] task = "melody" -> {"random", "identical", "empty_est", "empty_ref", "both_empty", "single", "disjoint",
                            "est-starts-after-0+est_voicing", "est-starts-after-0+ref_reward", "ref-starts-after-0+est_voicing",
                            "ref-starts-after-0+ref_reward", "both-start-after-0+both", "starts-at-0+both"}
